@@ -15,7 +15,8 @@ PROP = {
                    "over n frames is enumerated completely for small n (reported as exhaustive for that sub-domain); larger n and "
                    "multi-track blocks are sampled with masks built from run lengths. The written segment table is parsed by an "
                    "independent reader and must equal the unique maximal-run decomposition; decoding runs twice with numpy.empty "
-                   "returning differently poisoned memory, which makes 'uninitialised gap frames' deterministic."),
+                   "returning differently poisoned memory, which makes 'uninitialised gap frames' deterministic. Each track object is then edited in "
+                   "place to a different gap pattern and written again: the run table must follow the data it holds at write time."),
     "level_note": "Trusted: reftdf's segment parser; control over process memory state is limited to arrays obtained through numpy.empty (C-level allocations that bypass the Python name are out of reach).",
     "design_ref": "DESIGN.md section 3, C05",
     "rule": ("(a) case = (kind, n, mask) for every mask; (b) case = generated block spec of a run-length type; non-trivial = the mask has "
